@@ -373,3 +373,206 @@ Proof.
   exists p, term, ex. split; [|auto].
   rewrite firstn_app. rewrite firstn_all2 by lia. replace (length p + m - length p) with m by lia. rewrite C. reflexivity.
 Qed.
+
+(* ================= the candidate loop ================= *)
+Lemma plevel_app : forall a b lv, plevel lv (a ++ b) = plevel (plevel lv a) b.
+Proof. induction a as [|c a IH]; intros b lv; cbn [app plevel]; [reflexivity|apply IH]. Qed.
+
+Lemma plevel_no_open : forall b, Forall (fun c => is_open c = false) b -> plevel 0 b = 0.
+Proof.
+  induction b as [|c b IH]; intros H; [reflexivity|]. inversion H; subst. cbn [plevel]. rewrite H2.
+  destruct (is_close c); cbn [pred]; auto.
+Qed.
+
+(* what an accepted candidate guarantees *)
+Lemma accept_spec ck input s e eos : e <= length s -> accept ck input s e = Some eos ->
+  e <= eos /\ eos <= length s /\
+  plevel 0 (firstn e s) = 0 /\
+  firstn eos s = firstn e s ++ firstn (eos - e) (skipn e s) /\
+  Forall (fun c => is_prohibited c = true) (firstn (eos - e) (skipn e s)) /\
+  (eos < length s -> continuous s eos = false) /\
+  (forall lk, ck = Some lk -> has_non_break_word lk input eos = false).
+Proof.
+  intros He. unfold accept.
+  destruct (0 <? plevel 0 (firstn e s)) eqn:E0; [discriminate|].
+  set (eos' := if e <? length s then e + prohibited_bos (skipn e s) else e).
+  destruct (itemize_header s); [discriminate|].
+  destruct (if eos' <? length s then continuous s eos' else false) eqn:E2; [discriminate|].
+  assert (Hb : e <= eos' /\ eos' <= length s /\ eos' - e <= span is_prohibited (skipn e s) /\
+               (eos' - e = span is_prohibited (skipn e s) \/ eos' = e)).
+  { unfold eos', prohibited_bos. pose proof (span_le is_prohibited (skipn e s)) as Hs. rewrite skipn_length in Hs.
+    destruct (e <? length s) eqn:E; lia. }
+  destruct Hb as [B1 [B2 [B3 B4]]].
+  assert (Hcommon : e <= eos' /\ eos' <= length s /\ plevel 0 (firstn e s) = 0 /\
+     firstn eos' s = firstn e s ++ firstn (eos' - e) (skipn e s) /\
+     Forall (fun c => is_prohibited c = true) (firstn (eos' - e) (skipn e s)) /\
+     (eos' < length s -> continuous s eos' = false)).
+  { split; [assumption|]. split; [assumption|]. split; [lia|]. split.
+    - replace eos' with (e + (eos' - e)) at 1 by lia. apply firstn_add.
+    - split.
+      + destruct B4 as [B4|B4].
+        * rewrite B4. apply span_Forall.
+        * replace (eos' - e) with 0 by lia. constructor.
+      + intros Hlt. destruct (eos' <? length s) eqn:E; [assumption|lia]. }
+  destruct ck as [lk|].
+  - destruct (has_non_break_word lk input eos') eqn:E3; [discriminate|].
+    intros H; inversion H; subst eos. destruct Hcommon as [C1 [C2 [C3 [C4 [C5 C6]]]]].
+    repeat split; try assumption. intros lk' Hlk. inversion Hlk; subst. assumption.
+  - intros H; inversion H; subst eos. destruct Hcommon as [C1 [C2 [C3 [C4 [C5 C6]]]]].
+    repeat split; try assumption. intros lk' Hlk. discriminate.
+Qed.
+
+(* ================= SPACES ================= *)
+Lemma line_scan_pos : forall t i acc e, 1 <= i -> (forall a, acc = Some a -> 1 <= a) -> line_scan i t acc = Some e -> 1 <= e.
+Proof.
+  induction t as [|c r IH]; intros i acc e Hi Hacc H; cbn [line_scan] in H.
+  - auto.
+  - destruct (c =? 10)%N.
+    + inversion H. lia.
+    + eapply (IH (S i)); [lia| |exact H]. intros a Ha. destruct (is_ws c); [inversion Ha; lia|auto].
+Qed.
+
+Lemma spaces_from_pos : forall t i e, spaces_from i t = Some e -> 1 <= e.
+Proof.
+  induction t as [|c r IH]; intros i e H; cbn [spaces_from] in H; [discriminate|].
+  destruct (c =? 10)%N; [eapply IH; eassumption|].
+  eapply line_scan_pos; [| |exact H]; [lia|intros a Ha; discriminate].
+Qed.
+
+(* ================= get_eos ================= *)
+Lemma firstn_firstn_le {A} a b (t : list A) : a <= b -> firstn a (firstn b t) = firstn a t.
+Proof. intros H. rewrite firstn_firstn. rewrite Nat.min_l by lia. reflexivity. Qed.
+
+(* the two ways get_eos can answer on non-empty input with a window of at least one character *)
+Lemma get_eos_cases limit ck input : input <> [] -> 1 <= limit ->
+  let s := firstn limit input in
+  (first_some (accept ck input s) (candidates s) = None /\ (get_eos limit ck input < 0)%Z)
+  \/ (exists eos, first_some (accept ck input s) (candidates s) = Some eos /\
+                  get_eos limit ck input = Z.of_nat (blen (firstn eos input)) /\ 1 <= eos /\ eos <= length s).
+Proof.
+  intros Hne Hl s. unfold get_eos. destruct input as [|c0 r0]; [congruence|]. cbv iota.
+  set (input := c0 :: r0) in *. fold s. rewrite scan_find_eq. fold (candidates s).
+  assert (Hs : s <> []). { unfold s, input. destruct limit; [lia|]. cbn. congruence. }
+  destruct (first_some (accept ck input s) (candidates s)) as [eos|] eqn:E.
+  - right. exists eos. split; [reflexivity|].
+    destruct (first_some_In _ _ _ E) as [e [A1 A2]].
+    destruct (candidates_bounds _ _ A1) as [B1 B2].
+    destruct (accept_spec _ _ _ _ _ B2 A2) as [C1 [C2 _]].
+    split; [|lia]. f_equal. f_equal. unfold s. apply firstn_firstn_le.
+    unfold s in C2. rewrite firstn_length in C2. lia.
+  - left. split; [reflexivity|].
+    pose proof (blen_pos s Hs) as Hp.
+    destruct (if length s <? length input then spaces_end s else None) as [e|] eqn:E2; [|lia].
+    destruct (length s <? length input); [|discriminate].
+    apply spaces_from_pos in E2.
+    assert (firstn e s <> []). { destruct s; [congruence|]. destruct e; [lia|]. cbn. congruence. }
+    pose proof (blen_pos _ H). lia.
+Qed.
+
+Lemma get_eos_good_det limit ck : 1 <= limit -> good_det (get_eos limit ck).
+Proof.
+  intros Hl t Hne. destruct (get_eos_cases limit ck t Hne Hl) as [[_ H]|[eos [_ [H [H1 H2]]]]].
+  - left. assumption.
+  - right. exists eos. rewrite firstn_length in H2. split; [assumption|]. split; [lia|assumption].
+Qed.
+
+(* a positive answer: where it comes from *)
+Lemma get_eos_positive limit ck input : input <> [] -> 1 <= limit -> (0 <= get_eos limit ck input)%Z ->
+  let s := firstn limit input in
+  exists e eos l1 l2,
+    candidates s = l1 ++ e :: l2 /\ (forall y, In y l1 -> accept ck input s y = None) /\
+    accept ck input s e = Some eos /\ 1 <= e /\ e <= eos /\ eos <= length s /\
+    get_eos limit ck input = Z.of_nat (blen (firstn eos input)) /\ firstn eos s = firstn eos input.
+Proof.
+  intros Hne Hl Hpos s. destruct (get_eos_cases limit ck input Hne Hl) as [[_ H]|[eos [E [H [H1 H2]]]]]; [lia|].
+  fold s in E, H2. destruct (first_some_split _ _ _ E) as [l1 [e [l2 [A1 [A2 A3]]]]].
+  assert (Hin : In e (candidates s)) by (rewrite A1; apply in_or_app; right; left; reflexivity).
+  destruct (candidates_bounds _ _ Hin) as [B1 B2].
+  destruct (accept_spec _ _ _ _ _ B2 A2) as [C1 [C2 _]].
+  exists e, eos, l1, l2. repeat split; try assumption.
+  unfold s. apply firstn_firstn_le. unfold s in C2. rewrite firstn_length in C2. lia.
+Qed.
+
+(* ---- break only after a terminator ---- *)
+Lemma ends_with_terminator_extend t ex : ends_with_terminator t -> Forall trailer ex -> ends_with_terminator (t ++ ex).
+Proof.
+  intros [pre [term [tail [-> [A B]]]]] H. exists pre, term, (tail ++ ex).
+  rewrite <- !app_assoc. split; [reflexivity|]. split; [assumption|]. apply Forall_app. auto.
+Qed.
+
+Lemma get_eos_after_terminator limit ck input : input <> [] -> 1 <= limit -> (0 <= get_eos limit ck input)%Z ->
+  exists k, 1 <= k /\ k <= length input /\ get_eos limit ck input = Z.of_nat (blen (firstn k input)) /\
+            ends_with_terminator (firstn k input).
+Proof.
+  intros Hne Hl Hpos. destruct (get_eos_positive limit ck input Hne Hl Hpos) as [e [eos [l1 [l2 [A1 [A2 [A3 [A4 [A5 [A6 [A7 A8]]]]]]]]]]].
+  set (s := firstn limit input) in *.
+  assert (Hin : In e (candidates s)) by (rewrite A1; apply in_or_app; right; left; reflexivity).
+  destruct (candidates_bounds _ _ Hin) as [B1 B2].
+  destruct (accept_spec _ _ _ _ _ B2 A3) as [C1 [C2 [C3 [C4 [C5 _]]]]].
+  exists eos. split; [lia|]. split.
+  - unfold s in A6. rewrite firstn_length in A6. lia.
+  - split; [assumption|]. rewrite <- A8, C4. apply ends_with_terminator_extend.
+    + apply candidates_terminator. assumption.
+    + eapply Forall_impl; [|exact C5]. intros c. apply prohibited_trailer.
+Qed.
+
+(* ---- no break inside an open bracket ---- *)
+Definition prohibited_not_open : Prop := forall c, is_prohibited c = true -> is_open c = false.
+
+Lemma get_eos_bracket limit ck input : prohibited_not_open ->
+  input <> [] -> 1 <= limit -> (0 <= get_eos limit ck input)%Z ->
+  exists k, 1 <= k /\ k <= length input /\ get_eos limit ck input = Z.of_nat (blen (firstn k input)) /\
+            plevel 0 (firstn k input) = 0.
+Proof.
+  intros PNO Hne Hl Hpos. destruct (get_eos_positive limit ck input Hne Hl Hpos) as [e [eos [l1 [l2 [A1 [A2 [A3 [A4 [A5 [A6 [A7 A8]]]]]]]]]]].
+  set (s := firstn limit input) in *.
+  assert (Hin : In e (candidates s)) by (rewrite A1; apply in_or_app; right; left; reflexivity).
+  destruct (candidates_bounds _ _ Hin) as [B1 B2].
+  destruct (accept_spec _ _ _ _ _ B2 A3) as [C1 [C2 [C3 [C4 [C5 _]]]]].
+  exists eos. split; [lia|]. split.
+  - unfold s in A6. rewrite firstn_length in A6. lia.
+  - split; [assumption|]. rewrite <- A8, C4, plevel_app, C3. apply plevel_no_open.
+    eapply Forall_impl; [|exact C5]. intros c. apply PNO.
+Qed.
+
+(* class disjointness, decidable on the generated range lists *)
+Definition overlap (r1 r2 : N * N) : bool := ((fst r1 <=? snd r2) && (fst r2 <=? snd r1))%N.
+Definition cls_disjointb (a b : cls) : bool :=
+  forallb (fun x => negb (in_ranges b x)) (fst a)
+  && forallb (fun r => forallb (fun y => negb (in_range y r)) (fst b) && forallb (fun r2 => negb (overlap r r2)) (snd b)) (snd a).
+
+Lemma in_list_true l c : in_list l c = true <-> In c l.
+Proof.
+  unfold in_list. rewrite existsb_exists. split.
+  - intros [x [A B]]. assert (c = x) by lia. subst. assumption.
+  - intros H. exists c. split; [assumption|lia].
+Qed.
+
+Lemma cls_disjointb_sound a b c : cls_disjointb a b = true -> in_ranges a c = true -> in_ranges b c = false.
+Proof.
+  unfold cls_disjointb. rewrite andb_true_iff, !forallb_forall. intros [H1 H2] Ha.
+  unfold in_ranges in Ha. destruct (in_list (fst a) c) eqn:E.
+  - apply in_list_true in E. specialize (H1 _ E). destruct (in_ranges b c); [discriminate|reflexivity].
+  - rewrite existsb_exists in Ha. destruct Ha as [r [R1 R2]]. specialize (H2 _ R1).
+    rewrite andb_true_iff, !forallb_forall in H2. destruct H2 as [H2 H3].
+    unfold in_ranges. destruct (in_list (fst b) c) eqn:E2.
+    + apply in_list_true in E2. specialize (H2 _ E2). rewrite R2 in H2. discriminate.
+    + destruct (existsb (in_range c) (snd b)) eqn:E3; [|reflexivity].
+      rewrite existsb_exists in E3. destruct E3 as [r2 [Q1 Q2]]. specialize (H3 _ Q1).
+      unfold overlap in H3. unfold in_range in R2, Q2.
+      destruct (fst r <=? c)%N eqn:X1; [|discriminate]. destruct (fst r2 <=? c)%N eqn:X2; [|discriminate]. lia.
+Qed.
+
+Definition prohibited_not_open_b : bool :=
+  cls_disjointb F.CLOSE_PARENTHESIS F.OPEN_PARENTHESIS && cls_disjointb F.COMMA F.OPEN_PARENTHESIS
+  && cls_disjointb F.PERIODS F.OPEN_PARENTHESIS.
+
+Lemma prohibited_not_open_of_b : prohibited_not_open_b = true -> prohibited_not_open.
+Proof.
+  unfold prohibited_not_open_b, prohibited_not_open. rewrite !andb_true_iff. intros [[H1 H2] H3] c Hc.
+  unfold is_prohibited in Hc. unfold is_open.
+  destruct (is_close c) eqn:E1; [eapply cls_disjointb_sound; [exact H1|exact E1]|].
+  destruct (is_comma c) eqn:E2; [eapply cls_disjointb_sound; [exact H2|exact E2]|].
+  destruct (is_period c) eqn:E3; [eapply cls_disjointb_sound; [exact H3|exact E3]|].
+  discriminate.
+Qed.
